@@ -12,6 +12,18 @@ COMMON_ASSUMPTIONS = [
 K = lambda name, file, fn: dict(name=name, target=("oxidize-pdf-core/src/" + file, fn))
 
 PROPS = {
+    "C03": dict(
+        verus=["xrefstream", "strings"],
+        not_decided="byte offsets of classic xref entries ({:010} text), startxref, /Size, reference resolution, strict-parser acceptance (all in write_document's I/O sequence); names (see C30)",
+    ),
+    "C09": dict(
+        verus=["strings"],
+        not_decided="integers/reals (number text), arrays/dictionaries nesting, object streams, names (C30), the ISO-reader lemma for EOL handling",
+    ),
+    "C12": dict(
+        verus=["glyf"],
+        not_decided="build_subset_font (glyf/loca/hmtx rebuild), CFF, outline and advance-width equality (need a font parser as oracle)",
+    ),
     "C05": dict(
         verus=["rc4"],
         kani=[K("c05_perm_print", "encryption/permissions.rs", "Permissions::set_print/can_print"),
